@@ -616,9 +616,11 @@ fn build_plan(tier: &str, seed: u64, cases: &[Case], catalog: &[SynthFont], call
                 deep.push(fi);
             }
         }
+        // thorough: the sequences of four steps on the first two of these fonts only
         let max_deep = if quick { 3 } else { 4 };
-        for (depth_cap, fis) in [(max_deep, &deep), (2usize, &shallow)] {
-            for &fi in fis.iter() {
+        for (depth_cap, fis) in [(3usize, &deep), (2usize, &shallow)] {
+            for (pos, &fi) in fis.iter().enumerate() {
+                let depth_cap = if depth_cap == 3 && pos < 2 { max_deep } else { depth_cap };
                 let letter = script_spec(fonts[fi].script).cls.iter().find(|(n, _)| *n == "C").map(|(_, v)| v[0][0]).unwrap_or(0x61);
                 for (qi, steps) in calls.iter().enumerate() {
                     if steps.len() > depth_cap {
